@@ -16,7 +16,11 @@ def check(run):
     worst = {}
     for s in (stats.get("extra", {}) or {}).get("shapes", []):
         if s["verifications"] > s["bound"]:
-            key = "layered-dag" if s["shape"] == "layered" and not s["root_ok"] else "bound-exceeded-" + s["shape"]
+            key = "bound-exceeded-" + s["shape"]
+            if s["shape"] == "layered" and not s["root_ok"]:
+                key = "layered-dag"
+            if s["shape"] == "attest-siblings" and s["root_ok"]:
+                key = "attest-siblings"
             run.violation(key, "%s proof DAG width %d depth %d (%d delegations): %d signature verifications > %d" % (
                 s["shape"], s["width"], s["depth"], s["distinct_delegations"], s["verifications"], s["bound"]), s)
     run.cov["shape_table"] = (stats.get("extra", {}) or {}).get("shapes", [])
